@@ -53,10 +53,10 @@ func Number(s string) float64 {
 	if !IsNumberLiteral(t) {
 		return math.NaN()
 	}
-	v, err := strconv.ParseFloat(t, 64)
-	if err != nil {
-		return math.NaN()
-	}
+	// the syntax was checked above, so the only possible error is ErrRange: a
+	// numeral beyond the largest double converts, by IEEE round-to-nearest, to
+	// an infinity, which is what ParseFloat returns along with the error
+	v, _ := strconv.ParseFloat(t, 64)
 	return v
 }
 
